@@ -489,6 +489,10 @@ class Inliner:
                 return alts[0]
             alts.sort(key=lambda a: ast.dump(a))
             return ast.Call(func=ast.Name(id='PHI', ctx=ast.Load()), args=alts, keywords=[])
+        if isinstance(e, ast.Subscript) and isinstance(e.slice, ast.Name) and isinstance(e.ctx, ast.Load):
+            coll = self._indexed_collection(e.slice)
+            if coll is not None and ast.dump(coll) == ast.dump(e.value):
+                return ast.Call(func=ast.Name(id='ELEM', ctx=ast.Load()), args=[self.inline(e.value, depth + 1)], keywords=[])
         new_fields = {}
         for fld, val in ast.iter_fields(e):
             if isinstance(val, ast.expr):
@@ -508,6 +512,24 @@ class Inliner:
 
     def _inline_kw(self, kw: ast.keyword, depth):
         return ast.keyword(arg=kw.arg, value=self.inline(kw.value, depth + 1))
+
+    def _indexed_collection(self, idx: ast.Name):
+        """X when idx is the counter of `for idx in range(len(X))` or of `for idx, _ in enumerate(X)` (single reaching definition)"""
+        ids = self.res.load_defs.get(id(idx), ())
+        if len(ids) != 1:
+            return None
+        d = self.res.defs[next(iter(ids))]
+        if d.kind != 'for' or not isinstance(d.node, ast.For):
+            return None
+        it, tgt = d.node.iter, d.node.target
+        if isinstance(it, ast.Call) and isinstance(it.func, ast.Name):
+            if it.func.id == 'range' and len(it.args) == 1 and isinstance(it.args[0], ast.Call) and isinstance(it.args[0].func, ast.Name) \
+                    and it.args[0].func.id == 'len' and it.args[0].args and isinstance(tgt, ast.Name):
+                return it.args[0].args[0]
+            if it.func.id == 'enumerate' and it.args and isinstance(tgt, (ast.Tuple, ast.List)) and tgt.elts \
+                    and isinstance(tgt.elts[0], ast.Name) and tgt.elts[0].id == idx.id:
+                return it.args[0]
+        return None
 
     def _def_expr(self, d, var, depth) -> ast.expr:
         key = d.did
@@ -543,7 +565,16 @@ class Inliner:
                 old = alts[0] if len(alts) == 1 else ast.Call(func=ast.Name(id='PHI', ctx=ast.Load()), args=alts, keywords=[])
                 return ast.BinOp(left=old, op=node.op, right=self.inline(node.value, depth + 1))
             if d.kind == 'for' and isinstance(node, ast.For):
-                return ast.Call(func=ast.Name(id='ELEM', ctx=ast.Load()), args=[self.inline(node.iter, depth + 1)], keywords=[])
+                it, tgt = node.iter, node.target
+                elem = lambda x: ast.Call(func=ast.Name(id='ELEM', ctx=ast.Load()), args=[self.inline(x, depth + 1)], keywords=[])
+                # for a, b in zip(X, Y): a is an element of X, b of Y ; for i, x in enumerate(X): x is an element of X
+                if isinstance(it, ast.Call) and isinstance(it.func, ast.Name) and isinstance(tgt, (ast.Tuple, ast.List)):
+                    k = [i for i, t in enumerate(tgt.elts) if isinstance(t, ast.Name) and t.id == var]
+                    if k and it.func.id == 'zip' and len(it.args) == len(tgt.elts) and not it.keywords:
+                        return elem(it.args[k[0]])
+                    if k and it.func.id == 'enumerate' and len(it.args) >= 1 and len(tgt.elts) == 2 and k[0] == 1:
+                        return elem(it.args[0])
+                return elem(it)
             return ast.Name(id='OPAQUE_' + d.kind, ctx=ast.Load())
         finally:
             self.active.discard(key)
